@@ -12,7 +12,8 @@ from .. import copc as C
 
 THEOREMS = ["lookup_deep", "C15_reachable", "loop_collect", "mem_collect", "anc_path", "C15_nodes_partial",
             "C15_malformed_revisit", "C15_malformed_undefined", "C15_outcomes", "C15_child_inside", "mono_range",
-            "C15_range_cut", "C15_inside_kept", "C15_kept_near", "C15_2d", "C15_resolution"]
+            "C15_range_cut", "C15_inside_kept", "C15_kept_near", "C15_2d", "C15_resolution", "lazy_collect",
+            "C15_nodes_paged", "loop_succeeds", "C15_nodes", "groupNodes_spec", "C15_fetch"]
 
 WATCHDOG_S = 3
 
@@ -231,6 +232,15 @@ def run(ck):
             # --- the query through the public API (another fresh reader, one without readinto every other time)
             src = io.BytesIO(data) if qi % 2 == 0 else st.NoReadintoStream(data)
             rd = CopcReader(src)
+            fetched = {}
+            orig_fetch = rd._fetch_all_chunks
+
+            def spy(groups, _o=orig_fetch, _f=fetched):
+                _f["queries"] = ",".join(f"{g[0].offset}:{sum(nn.byte_size for nn in g)}" for g in groups)
+                res = _o(groups)
+                _f["table"] = ",".join(f"{c}:{sz}" for (c, sz) in res[2])
+                return res
+            rd._fetch_all_chunks = spy
 
             def query_fn():
                 if mode == "box" and qi % 3 == 0:
@@ -240,6 +250,11 @@ def run(ck):
                 return rd.query(bounds=bounds, level=level, resolution=res)
             r2 = guarded(query_fn)
             meta[-1 if not box else -4] = (inp, impl_nodes if impl_nodes != "ok" else "ok ", r2, lo, hi, t, item, by_loc)
+            if r2[0] == "ok" and "queries" in fetched and impl_nodes.startswith("ok"):
+                # read requests and chunk table: the model groups the model-order node list
+                toks = impl_nodes.split()[1:]
+                lines.append("cp fetch " + (",".join(toks) or "-"))
+                meta.append(("fetch", inp, fetched["queries"] + " | " + fetched["table"]))
             # --- brute-force oracle (independent of the model)
             reached_bad = malform is not None and mode == "all"
             if r2[0] == "loop":
@@ -315,6 +330,13 @@ def run(ck):
         i = 0
         while i < len(lines):
             m = meta[i]
+            if len(m) == 3 and m[0] == "fetch":
+                if out[i].strip() != m[2].strip():
+                    if bad is None:
+                        bad = f"fetch {m[1]}: model '{out[i][:200]}' impl '{m[2][:200]}'"
+                    ck.fail(f"read requests / chunk table differ from the model's grouping: model '{out[i][:160]}' impl '{m[2][:160]}'", m[1], source="correspondence")
+                i += 1
+                continue
             if len(m) == 2:
                 if out[i].strip() != str(m[1]).strip() and bad is None:
                     bad = f"{m[0]}: model '{out[i][:200]}' impl '{str(m[1])[:200]}'"
